@@ -9,6 +9,7 @@ import (
 	"golang.org/x/tools/go/ssa"
 
 	"rtpcheck/bits"
+	"rtpcheck/core"
 )
 
 // vecMatches reports whether v matches pattern (with fresh placeholder bindings).
@@ -40,7 +41,8 @@ func branchesOn(m *bits.Machine, pattern string) []*ssa.If {
 			continue
 		}
 		if iff, ok := b.Instrs[len(b.Instrs)-1].(*ssa.If); ok {
-			if vecMatches(m.CondOf(iff), pattern) {
+			// either polarity: `x&bit != 0 { A } else { B }` and `x&bit == 0 { B } else { A }` are the same test
+			if vecMatches(m.CondOf(iff), pattern) || (!strings.Contains(pattern, " ") && !strings.HasPrefix(pattern, "!") && vecMatches(m.CondOf(iff), "!"+pattern)) {
 				out = append(out, iff)
 			}
 		}
@@ -61,6 +63,41 @@ func cmpConsts(m *bits.Machine, pattern string) []uint64 {
 		out = append(out, k)
 	}
 	sort.Slice(out, func(i, j int) bool { return out[i] < out[j] })
+	return out
+}
+
+// cmpsWithCallees: the comparisons of fn and of the methods of the same receiver it calls
+// (transitively): a test moved into a helper method is still the function's test.
+func cmpsWithCallees(p *core.Program, fn *ssa.Function) []bits.CmpInfo {
+	var out []bits.CmpInfo
+	seen := map[*ssa.Function]bool{}
+	var visit func(f *ssa.Function)
+	visit = func(f *ssa.Function) {
+		if f == nil || seen[f] || len(f.Blocks) == 0 {
+			return
+		}
+		seen[f] = true
+		m := bits.Run(p, f)
+		var keys []ssa.Value
+		for k := range m.Cmps {
+			keys = append(keys, k)
+		}
+		sort.Slice(keys, func(i, j int) bool { return keys[i].Pos() < keys[j].Pos() })
+		for _, k := range keys {
+			out = append(out, m.Cmps[k])
+		}
+		for _, b := range f.Blocks {
+			for _, in := range b.Instrs {
+				if call, ok := in.(*ssa.Call); ok {
+					g := call.Call.StaticCallee()
+					if g != nil && core.InModule(g) && len(f.Params) > 0 && len(call.Call.Args) > 0 && call.Call.Args[0] == f.Params[0] {
+						visit(g)
+					}
+				}
+			}
+		}
+	}
+	visit(fn)
 	return out
 }
 
